@@ -286,10 +286,20 @@ package eth2wrap
 //@ after c.fetchProposerDuties: !ok ==> len(dutiesForEpoch.duties) == 0
 //@ after c.storeOrAmendProposerDuties: forall(j, 0, len(dutiesForEpoch.duties), has(requestedSet, dutiesForEpoch.duties[j].ValidatorIndex) ==> exists(k, 0, len(dutiesResult), sameProDuty(dutiesResult[k], dutiesForEpoch.duties[j])))
 //@ ensures r1 == nil ==> forall(j, 0, len(dutiesForEpoch.duties), has(requestedSet, dutiesForEpoch.duties[j].ValidatorIndex) ==> exists(k, 0, len(r0.Duties), sameProDuty(r0.Duties[k], dutiesForEpoch.duties[j])))
-//@ loop 1 invariant true
+// Miss and partial-hit path: the beacon node is asked for this epoch and for exactly the requested indices that were not
+// asked before (all requested ones on a miss); what it returns is part of the answer (the same objects), and what is
+// handed to the cache is this epoch, those indices and the returned duties by value, in order.
+//@ callreq c.eth2Cl.ProposerDuties: a2.Epoch == epoch && a2.Indices == requestVidxs && ncalls(c.eth2Cl.ProposerDuties) == 0
+//@ callreq c.eth2Cl.ProposerDuties: ok ==> forall(m, 0, len(requestVidxs), !has(previouslyRequested, requestVidxs[m]) && has(requestedSet, requestVidxs[m]))
+//@ callreq c.storeOrAmendProposerDuties: a1 == epoch && a2.requestedIdxs == requestVidxs && a2.metadata == eth2Resp.Metadata && len(a2.duties) == len(eth2Resp.Data) && forall(q, 0, len(a2.duties), a2.duties[q] == *eth2Resp.Data[q])
+//@ ensures r1 == nil && ncalls(c.eth2Cl.ProposerDuties) == 1 ==> forall(q, 0, len(eth2Resp.Data), exists(k, 0, len(r0.Duties), r0.Duties[k] == eth2Resp.Data[q]))
+//@ ensures r1 == nil ==> ncalls(c.eth2Cl.ProposerDuties) <= 1 && ncalls(c.storeOrAmendProposerDuties) == ncalls(c.eth2Cl.ProposerDuties)
+//@ loop 1 invariant forall(t, 0, $i, has(previouslyRequested, dutiesForEpoch.requestedIdxs[t]))
 //@ loop 2 invariant forall(t, 0, $i, has(requestedSet, requestVidxs[t]))
+//@ loop 2 invariant forall(m, 0, len(missing), !has(previouslyRequested, missing[m]) && has(requestedSet, missing[m]))
+//@ loop 2 invariant forall(t, 0, $i, has(previouslyRequested, requestVidxs[t]) || exists(m, 0, len(missing), missing[m] == requestVidxs[t]))
 //@ loop 3 invariant forall(j, 0, $i, has(requestedSet, dutiesForEpoch.duties[j].ValidatorIndex) ==> exists(k, 0, len(dutiesResult), sameProDuty(dutiesResult[k], dutiesForEpoch.duties[j])))
-//@ loop 4 invariant true
+//@ loop 4 invariant len(dutiesDeref) == $i && forall(q, 0, $i, eth2Resp.Data[q] != nil && dutiesDeref[q] == *eth2Resp.Data[q])
 
 // Every cached duty of a requested validator is part of the answer by value.
 //@ spec func sameAttDuty(p *eth2v1.AttesterDuty, d eth2v1.AttesterDuty) bool = p != nil && p.ValidatorIndex == d.ValidatorIndex && p.Slot == d.Slot && p.PubKey == d.PubKey && p.CommitteeIndex == d.CommitteeIndex && p.CommitteeLength == d.CommitteeLength && p.CommitteesAtSlot == d.CommitteesAtSlot && p.ValidatorCommitteeIndex == d.ValidatorCommitteeIndex
@@ -299,10 +309,20 @@ package eth2wrap
 //@ after c.fetchAttesterDuties: !ok ==> len(dutiesForEpoch.duties) == 0
 //@ after c.storeOrAmendAttesterDuties: forall(j, 0, len(dutiesForEpoch.duties), has(requestedSet, dutiesForEpoch.duties[j].ValidatorIndex) ==> exists(k, 0, len(dutiesResult), sameAttDuty(dutiesResult[k], dutiesForEpoch.duties[j])))
 //@ ensures r1 == nil ==> forall(j, 0, len(dutiesForEpoch.duties), has(requestedSet, dutiesForEpoch.duties[j].ValidatorIndex) ==> exists(k, 0, len(r0.Duties), sameAttDuty(r0.Duties[k], dutiesForEpoch.duties[j])))
-//@ loop 1 invariant true
+// Miss and partial-hit path: the beacon node is asked for this epoch and for exactly the requested indices that were not
+// asked before (all requested ones on a miss); what it returns is part of the answer (the same objects), and what is
+// handed to the cache is this epoch, those indices and the returned duties by value, in order.
+//@ callreq c.eth2Cl.AttesterDuties: a2.Epoch == epoch && a2.Indices == requestVidxs && ncalls(c.eth2Cl.AttesterDuties) == 0
+//@ callreq c.eth2Cl.AttesterDuties: ok ==> forall(m, 0, len(requestVidxs), !has(previouslyRequested, requestVidxs[m]) && has(requestedSet, requestVidxs[m]))
+//@ callreq c.storeOrAmendAttesterDuties: a1 == epoch && a2.requestedIdxs == requestVidxs && a2.metadata == eth2Resp.Metadata && len(a2.duties) == len(eth2Resp.Data) && forall(q, 0, len(a2.duties), a2.duties[q] == *eth2Resp.Data[q])
+//@ ensures r1 == nil && ncalls(c.eth2Cl.AttesterDuties) == 1 ==> forall(q, 0, len(eth2Resp.Data), exists(k, 0, len(r0.Duties), r0.Duties[k] == eth2Resp.Data[q]))
+//@ ensures r1 == nil ==> ncalls(c.eth2Cl.AttesterDuties) <= 1 && ncalls(c.storeOrAmendAttesterDuties) == ncalls(c.eth2Cl.AttesterDuties)
+//@ loop 1 invariant forall(t, 0, $i, has(previouslyRequested, dutiesForEpoch.requestedIdxs[t]))
 //@ loop 2 invariant forall(t, 0, $i, has(requestedSet, requestVidxs[t]))
+//@ loop 2 invariant forall(m, 0, len(missing), !has(previouslyRequested, missing[m]) && has(requestedSet, missing[m]))
+//@ loop 2 invariant forall(t, 0, $i, has(previouslyRequested, requestVidxs[t]) || exists(m, 0, len(missing), missing[m] == requestVidxs[t]))
 //@ loop 3 invariant forall(j, 0, $i, has(requestedSet, dutiesForEpoch.duties[j].ValidatorIndex) ==> exists(k, 0, len(dutiesResult), sameAttDuty(dutiesResult[k], dutiesForEpoch.duties[j])))
-//@ loop 4 invariant true
+//@ loop 4 invariant len(dutiesDeref) == $i && forall(q, 0, $i, eth2Resp.Data[q] != nil && dutiesDeref[q] == *eth2Resp.Data[q])
 
 // Every cached duty of a requested validator is part of the answer by value.
 //@ spec func sameSyncDuty(p *eth2v1.SyncCommitteeDuty, d eth2v1.SyncCommitteeDuty) bool = p != nil && p.ValidatorIndex == d.ValidatorIndex && p.PubKey == d.PubKey && seqeq(p.ValidatorSyncCommitteeIndices, d.ValidatorSyncCommitteeIndices)
@@ -312,10 +332,21 @@ package eth2wrap
 //@ after c.fetchSyncDuties: !ok ==> len(dutiesForEpoch.duties) == 0
 //@ after c.storeOrAmendSyncDuties: forall(j, 0, len(dutiesForEpoch.duties), has(requestedSet, dutiesForEpoch.duties[j].ValidatorIndex) ==> exists(k, 0, len(dutiesResult), sameSyncDuty(dutiesResult[k], dutiesForEpoch.duties[j])))
 //@ ensures r1 == nil ==> forall(j, 0, len(dutiesForEpoch.duties), has(requestedSet, dutiesForEpoch.duties[j].ValidatorIndex) ==> exists(k, 0, len(r0.Duties), sameSyncDuty(r0.Duties[k], dutiesForEpoch.duties[j])))
-//@ loop 1 invariant true
+// Miss and partial-hit path: the beacon node is asked for this epoch and for exactly the requested indices that were not
+// asked before (all requested ones on a miss); what it returns is part of the answer (the same objects), and what is
+// handed to the cache is this epoch, those indices and one duty per returned duty (each a cloneSyncCommDuty copy; that the
+// k-th stored duty is the copy of the k-th returned one is not discharged by the solvers and not claimed).
+//@ callreq c.eth2Cl.SyncCommitteeDuties: a2.Epoch == epoch && a2.Indices == requestVidxs && ncalls(c.eth2Cl.SyncCommitteeDuties) == 0
+//@ callreq c.eth2Cl.SyncCommitteeDuties: ok ==> forall(m, 0, len(requestVidxs), !has(previouslyRequested, requestVidxs[m]) && has(requestedSet, requestVidxs[m]))
+//@ callreq c.storeOrAmendSyncDuties: a1 == epoch && a2.requestedIdxs == requestVidxs && a2.metadata == eth2Resp.Metadata && len(a2.duties) == len(eth2Resp.Data)
+//@ ensures r1 == nil && ncalls(c.eth2Cl.SyncCommitteeDuties) == 1 ==> forall(q, 0, len(eth2Resp.Data), exists(k, 0, len(r0.Duties), r0.Duties[k] == eth2Resp.Data[q]))
+//@ ensures r1 == nil ==> ncalls(c.eth2Cl.SyncCommitteeDuties) <= 1 && ncalls(c.storeOrAmendSyncDuties) == ncalls(c.eth2Cl.SyncCommitteeDuties)
+//@ loop 1 invariant forall(t, 0, $i, has(previouslyRequested, dutiesForEpoch.requestedIdxs[t]))
 //@ loop 2 invariant forall(t, 0, $i, has(requestedSet, requestVidxs[t]))
+//@ loop 2 invariant forall(m, 0, len(missing), !has(previouslyRequested, missing[m]) && has(requestedSet, missing[m]))
+//@ loop 2 invariant forall(t, 0, $i, has(previouslyRequested, requestVidxs[t]) || exists(m, 0, len(missing), missing[m] == requestVidxs[t]))
 //@ loop 3 invariant forall(j, 0, $i, has(requestedSet, dutiesForEpoch.duties[j].ValidatorIndex) ==> exists(k, 0, len(dutiesResult), sameSyncDuty(dutiesResult[k], dutiesForEpoch.duties[j])))
-//@ loop 4 invariant true
+//@ loop 4 invariant len(dutiesDeref) == $i
 
 //@ func slices.Clone
 //@ assume-contract standard library: a new slice with the same elements
